@@ -39,9 +39,9 @@ CHECKS = {
    text='Pack / count / unpack (length phase and data phase) for EVERY vector of up to 3 strings of up to 2 bytes (thorough: 4 x 3, plus a symbolic-shape functional query) with symbolic bytes and requested counts S-1..S+2, all objects of exact extent; count of 300 empty strings.'),
 
  'C07': dict(cat='model_checking', ref='3/C07', tech=BMC + ' with a reference encoder written from acf-vss.md',
-   text='SetVssPath/SetVssData/CalcVssPathLength for all 24 datatypes x both address modes: (F) symbolic path length 0..6 and value length 0..16 bytes in whole elements (thorough: 16 / 64), symbolic path/value bytes (floats as raw bit patterns), all prior contents - whole object incl. guard bytes compared with the reference encoding; (E) every concrete (path length, element count) pair in the bound with message, path source and value source of exact extent; reserved address modes x every datatype and every reserved datatype code: object must equal its snapshot. LE+BE.'),
+   text='SetVssPath/SetVssData/CalcVssPathLength for all 24 datatypes x both address modes: (F) symbolic path length 0..6 and value length 0..16 bytes in whole elements (thorough: 16 / 64), symbolic path/value bytes (floats as raw bit patterns), all prior contents - whole object incl. guard bytes compared with the reference encoding; (E) every concrete (path length, element count) pair in the bound with message, path source and value source of exact extent; reserved address modes x every datatype and every reserved datatype code: object must equal its snapshot; interop path lengths around 255/256/511/512, value sizes up to 600 bytes across the 255/256/511/512 boundaries, two-message sequences encoded into one re-used buffer. LE+BE.'),
  'C08': dict(cat='model_checking', ref='3/C08', tech=BMC + ' with a reference encoder written from acf-vss.md',
-   text='GetVssPath/GetVssData/CalcVssPathLength on messages produced by the reference encoder (F, symbolic lengths) and by the library encoder shown equal to the reference (E, exact extent): decoded path/value equal the originals bit for bit, the length query (NULL destination) writes only the length, nothing beyond the reported length is written into exact-extent destinations, the message is never modified and never over-read. Same bounds as C07. LE+BE.'),
+   text='GetVssPath/GetVssData/CalcVssPathLength on messages produced by the reference encoder (F, symbolic lengths) and by the library encoder shown equal to the reference (E, exact extent): decoded path/value equal the originals bit for bit, the length query (NULL destination) writes only the length, nothing beyond the reported length is written into exact-extent destinations, the message is never modified and never over-read. Same bounds as C07, plus lean decode queries for values of 512..513 bytes and decode sequences of messages placed one after the other at the same buffer address. LE+BE.'),
 
  'C14': dict(cat='model_checking', ref='3/C14', tech=BMC + ' in the big-endian configuration (goto-cc --big-endian + big-endian preprocessor branch)',
    text='Every harness family of C01-C10, C12, C13, C17 is decided again in the big-endian configuration with the same byte-level oracle assertions (quick: all BE queries of the per-property checks plus BE twins of a sample of the LE-only queries; thorough: a BE twin of every query); two mixed-configuration sanity twins must fail. Equality of LE and BE wire bytes/values follows by transitivity through the byte-defined oracle.',
@@ -50,7 +50,7 @@ CHECKS = {
    text='Half 1: accessor, builder and codec harnesses with the PDU placed at each byte offset 1..7 inside a larger object must discharge the same oracle assertions (values and bytes independent of placement). Half 2: for every library TU and -O0(mem2reg)/-O1/-O2/-O3 every load/store/memcpy operand with alignment > 1 becomes one bit-vector query (root = 0 mod promised ABI alignment, free GEP indices, is addr mod k != 0 satisfiable?), decided by z3 and cross-checked by cvc5; a satisfiable query is replayed natively under -fsanitize=alignment with the PDU at the model residue.',
    note='Trusted: clang-14 IR generation, own IR text parser, z3+cvc5 agreeing; promised alignment = x86-64 ABI alignment of the pointee type; equal results across optimisation levels rest on the compiler preserving defined behaviour given the absence of UB (CBMC checks + this alignment check). 15 classes of typed accesses in Vss.c are recorded known findings.'),
  'C16': dict(cat='other', ref='3/C16', tech='symbol-table inventory + BMC frame check under --nondet-static + composition argument (no schedule exploration)',
-   text='Per-function symbolic proof + composition argument, NOT an exploration of interleavings (CBMC refuses pointer-based concurrency). (a) every static-lifetime object of every library goto binary must be const; only memcpy/memset are called externally; (b) every accessor/initialiser/builder/codec harness is decided again with an arbitrary pre-state of all mutable statics (--nondet-static): oracle assertions and pointer checks must hold; (c) functions whose footprint is their arguments plus immutable tables are race-free on distinct arguments. A mutable static is replayed on two threads under ThreadSanitizer.',
+   text='Per-function symbolic proof + composition argument, NOT an exploration of interleavings (CBMC refuses pointer-based concurrency). (a) every static-lifetime object of every library goto binary must be const; only memcpy/memset are called externally; (b) every accessor/initialiser/builder/codec harness is decided again with an arbitrary pre-state of all mutable statics (--nondet-static): oracle assertions and pointer checks must hold; (d) all readers of every format are enforced against an EMPTY assigns contract with CBMC dynamic frame condition checking (goto-instrument --dfcc): a getter that writes anything, even identical bytes, fails; (c) functions whose footprint is their arguments plus immutable tables are race-free on distinct arguments, readers on a shared PDU. A mutable static is replayed on two threads under ThreadSanitizer, a writing reader on an mprotect-ed page.',
    note='Trusted: goto-instrument symbol table; the composition argument (stated in DESIGN.md); TSan for replays. Level "other": the schedule quantifier is discharged by argument over solver-checked footprints.'),
 
  'C20': dict(cat='model_checking', ref='3/C20', tech='front-end compile matrix (goto-cc/gcc C99, clang++ C++17) + BMC-decided value/designation assertions in combined TUs',
